@@ -100,6 +100,10 @@ func (e *SpecEnv) load(addr string, t types.Type) SVal {
 	}
 	s := g.L.CellSort(t)
 	term := g.loadCell(e.st, addr, s)
+	if isLocalType(t) {
+		// a local scalar of a C function: its value has the variable's declared type
+		return SVal{S: term, T: unwrapLocal(t), Sort: g.L.ValSort(t), Addr: addr}
+	}
 	// typed memory: an integer cell read through a typed path holds a value of its type.
 	// (only for ground addresses: assumptions cannot mention bound variables)
 	// (not in C functions: pointer casts there re-type cells, e.g. an opaque field element seen through a limb_t*)
@@ -791,6 +795,32 @@ func (e *SpecEnv) evalCall(c *ast.CallExpr) SVal {
 		}
 		k := e.eval(args[0])
 		return SVal{S: app("select", app("select", g.mapVis(e.st, e.iterKeySort), pObj(e.iter)), k.S), T: bt, Sort: "Bool"}
+	case "forallkey":
+		// forallkey(m, k, body): body holds for every key k of the map m
+		m := e.eval(args[0])
+		mt, ok := m.T.Underlying().(*types.Map)
+		if !ok || len(args) != 3 {
+			specFail("forallkey(m, k, body): m must be a map")
+		}
+		ks := g.L.CellSort(mt.Key())
+		kn := args[1].(*ast.Ident).Name
+		q := g.fresh(kn)
+		sub := e.bind(kn, SVal{S: q, T: mt.Key(), Sort: ks})
+		sub.bound = append(append([]string{}, e.bound...), q)
+		sub.pats = nil
+		body := sub.eval(args[2])
+		dom := app("select", app("select", g.mapDom(e.st, ks), pObj(m.S)), q)
+		return SVal{S: fmt.Sprintf("(forall ((%s %s)) (! %s :pattern (%s)))", q, ks, sImp(dom, body.S), dom), T: bt, Sort: "Bool"}
+	case "vlensum":
+		// vlensum(m): the sum of the lengths of the values of the slice-valued map m (ghost, maintained by every update)
+		m := e.eval(args[0])
+		return SVal{S: app("select", g.rawHeap(e.st, "M_vlen", "(Array Int Int)"), pObj(m.S)), T: typInt, Sort: "Int"}
+	case "vissum":
+		// vissum(): the sum of the lengths of the values produced so far by the map iteration of the enclosing loop
+		if e.iter == "" {
+			specFail("vissum() is only available in invariants of a loop ranging over a map")
+		}
+		return SVal{S: app("select", g.rawHeap(e.st, "M_vissum", "(Array Int Int)"), pObj(e.iter)), T: typInt, Sort: "Int"}
 	case "nvisited":
 		// nvisited(): number of keys produced so far by the map iteration of the enclosing loop
 		if e.iter == "" {
@@ -1058,6 +1088,12 @@ func (e *SpecEnv) EvalRegion(x ast.Expr) (r Region, err error) {
 			specFail("assigns *: not a pointer")
 		}
 		return Region{Obj: pObj(p.S), Lo: pOff(p.S), Hi: g.M.ixAdd(pOff(p.S), g.M.IxLit(g.L.Size(et))), T: et, Cells: g.L.Size(et), Src: src}, nil
+	}
+	if id, ok := x.(*ast.Ident); ok {
+		// a variable: its own storage (for a local scalar of a C function that is the cell in the locals' heap)
+		if lv, ok := e.vars[id.Name]; ok && lv.Addr != "" && lv.T != nil && isLocalType(lv.T) {
+			return Region{Obj: pObj(lv.Addr), Lo: pOff(lv.Addr), Hi: g.M.ixAdd(pOff(lv.Addr), g.M.IxLit(1)), T: lv.T, Cells: 1, Src: src}, nil
+		}
 	}
 	v := e.eval(x)
 	if v.Addr == "" {
